@@ -21,6 +21,9 @@ def g1(E, k, d=None):
     return next(iter(v)) if v else d
 
 
+from rules import libtab
+
+
 class SendHooks(QHooks):
     """common vocabulary; subclasses add monitors"""
     tracked = frozenset(['G:tododir', 'G:flagexitasap', 'G:dline', 'G:todoline', 'G:flagcleanup'])
@@ -399,16 +402,23 @@ def analyse_messdone(db, rep):
     return H.sites
 
 
-class BounceHooks(SendHooks):
-    """injectbounce(): qmail_* are primitives"""
-    def prim_getinfo(self, E, x, args):
-        return [Outcome(ret=fs(0)), Outcome(ret=fs(1))]
+class BounceHooks(libtab.SAConc, SendHooks):
+    """injectbounce() for a message with a given envelope sender (concrete bytes): qmail_* are primitives"""
+    def __init__(self, sender=b'a@b'):
+        SendHooks.__init__(self)
+        self.sender = sender
 
-    def prim_strcmp(self, E, x, args):
-        lit = x.args[1].string
-        if lit == '#@[]' and (x.args[0].path() or '').endswith('.s'):
-            return [Outcome(ret=fs(0), sets={'$sender': fs('#@[]')}, log='sender is #@[]'), Outcome(ret=fs(1), log='sender is not #@[]')]
-        return [Outcome(ret=fs(0)), Outcome(ret=fs(1))]
+    def tracked_global(self, path):
+        return True
+
+    def precise_arith(self, path):
+        return True
+
+    def prim_getinfo(self, E, x, args):
+        # the info file holds the sender as a NUL-terminated record
+        ok = self._put(E, x, args, self.sender + b'\0', False)[0]
+        ok.sets = dict(ok.sets or {}, **{'$sender': fs(self.sender.decode('latin-1'))})
+        return [Outcome(ret=fs(0)), Outcome(ret=fs(1), sets=ok.sets, log='message from <%s>' % self.sender.decode('latin-1'))]
 
     def prim_qmail_open(self, E, x, args):
         self.count('open')
@@ -480,14 +490,21 @@ class BounceHooks(SendHooks):
 def analyse_injectbounce(db, rep):
     prog = db.program('qmail-send')
     fn = prog.fn('injectbounce', 'qmail-send.c')
-    H = BounceHooks()
-    eng = Engine(db, prog, H)
-    eng.run(fn, {})
-    rep.count_states(eng.states, eng.transitions)
-    if H.counts.get('unlink', 0) < 1 or H.counts.get('close', 0) < 1:
-        if all(v[0] for v in H.sites.values()):
+    sites, counts = {}, {}
+    for snd in (b'a@b', b'', b'#@[]', b'list-owner-@[]', b'x'):
+        H = BounceHooks(snd)
+        eng = Engine(db, prog, H, max_states=300000)
+        eng.run(fn, {})
+        rep.count_states(eng.states, eng.transitions)
+        for k, v in H.sites.items():
+            if k not in sites or (sites[k][0] and not v[0]):
+                sites[k] = v
+        for k, v in H.counts.items():
+            counts[k] = counts.get(k, 0) + v
+    if counts.get('unlink', 0) < 1 or counts.get('close', 0) < 1:
+        if all(v[0] for v in sites.values()):
             raise AnalysisBroken('injectbounce: unlink/qmail_close not explored')
-    return H.sites
+    return sites
 
 
 class TodoSkipHooks(TodoHooks):
